@@ -92,6 +92,7 @@ type Ctx struct {
 	NShards int
 
 	only    int64 // -1: all
+	onlySet map[int64]bool
 	start   int64
 	journal bool
 	idx     int64
@@ -177,7 +178,11 @@ func (c *Ctx) Do(class string, desc func() string, fn func(t *T)) {
 	if c.deadlineHit {
 		return
 	}
-	if c.only >= 0 {
+	if c.onlySet != nil {
+		if !c.onlySet[i] {
+			return
+		}
+	} else if c.only >= 0 {
 		if i != c.only {
 			return
 		}
@@ -252,7 +257,7 @@ func (t *T) Fail(key, format string, args ...any) {
 	t.failed = true
 	c := t.c
 	c.perKey[key]++
-	if c.perKey[key] > 2 && c.only < 0 {
+	if c.perKey[key] > 2 && c.only < 0 && c.onlySet == nil {
 		return
 	}
 	d := fmt.Sprintf(format, args...)
@@ -314,11 +319,12 @@ type workerOpts struct {
 	journal  bool
 	deadline time.Duration
 	hashFile string
+	onlySet  map[int64]bool
 }
 
 func runWorker(ch *Check, o workerOpts) int {
 	c := &Ctx{
-		Tier: o.tier, Shard: o.shard, NShards: o.nshards, only: o.only, start: o.start, journal: o.journal,
+		Tier: o.tier, Shard: o.shard, NShards: o.nshards, only: o.only, onlySet: o.onlySet, start: o.start, journal: o.journal,
 		hashes: map[uint64]struct{}{}, outcomes: map[string]int64{}, perKey: map[string]int64{}, extra: map[string]int64{},
 		out: bufio.NewWriterSize(os.Stdout, 1<<16),
 	}
@@ -326,7 +332,7 @@ func runWorker(ch *Check, o workerOpts) int {
 	if ch.HangSeconds > 0 {
 		c.hang = time.Duration(ch.HangSeconds) * time.Second
 	}
-	if o.deadline > 0 && o.only < 0 {
+	if o.deadline > 0 && o.only < 0 && o.onlySet == nil {
 		c.deadline = time.Now().Add(o.deadline)
 	}
 	// hang watchdog: the only timer that can produce a failure; margin is 4-7 orders of magnitude.
